@@ -295,7 +295,7 @@ func (lf *LockFacts) inter() {
 		if isGenericTemplate(fn) {
 			continue
 		}
-		allInstrs(fn, func(in ssa.Instruction) {
+		allInstrsLocal(fn, func(in ssa.Instruction) {
 			c, ok := in.(ssa.CallInstruction)
 			if !ok {
 				return
@@ -417,7 +417,7 @@ func (w *World) rootCalleesThroughWrappers(c ssa.CallInstruction) []*ssa.Functio
 		}
 		if f.Synthetic != "" && f.Blocks != nil && !w.inRoot(f) {
 			// wrapper: follow its single static call
-			allInstrs(f, func(in ssa.Instruction) {
+			allInstrsLocal(f, func(in ssa.Instruction) {
 				if cc, ok := in.(ssa.CallInstruction); ok {
 					if g := staticCallee(cc); g != nil && w.inRoot(g) && g.Blocks != nil {
 						add(g)
@@ -456,7 +456,7 @@ func (lf *LockFacts) order() {
 		if isGenericTemplate(fn) {
 			continue
 		}
-		allInstrs(fn, func(in ssa.Instruction) {
+		allInstrsLocal(fn, func(in ssa.Instruction) {
 			c, ok := in.(ssa.CallInstruction)
 			if !ok {
 				return
